@@ -74,15 +74,19 @@ func SequenceList(v Object) (*List, error) {
 func SequenceSet(v Object) (*Set, error) {
 	switch x := v.(type) {
 	case Tuple:
-		return NewSetFromItems(x), nil
+		return SetFromItems(x)
 	case *List:
-		return NewSetFromItems(x.Items), nil
+		return SetFromItems(x.Items)
 	default:
 		s := NewSet()
+		var addErr error
 		err := Iterate(v, func(item Object) bool {
-			s.Add(item)
-			return false
+			addErr = s.AddItem(item)
+			return addErr != nil
 		})
+		if err == nil {
+			err = addErr
+		}
 		if err != nil {
 			return nil, err
 		}
